@@ -1587,17 +1587,8 @@ impl TypeLayout {
             (Self::List(ListType::Open(t1)), Self::List(ListType::Open(t2)), _) => {
                 t1.eq_complex(t2, flags)
             }
-            (Self::List(ListType::Mixed(t1)), Self::List(ListType::Open(t2)), _) => {
-                let flags = Box::new(flags.deref());
-
-                // a fixed-shape list is expected: every slot must accept the element type of the open list supplied
-                for ty in t1 {
-                    if !ty.eq_complex(t2, *flags) {
-                        return false;
-                    }
-                }
-                true
-            }
+            // a fixed-shape list is expected: a `[T...]` has no static length, so it is never known to have that shape
+            (Self::List(ListType::Mixed(_)), Self::List(ListType::Open(_)), _) => false,
             (Self::List(ListType::Open(t2)), Self::List(ListType::Mixed(t1)), _) => {
                 let flags = Box::new(flags.deref());
 
